@@ -1497,7 +1497,7 @@ class LeadLag(Block):
         """
 
         self.x.v_str = f'{self.u.name}'
-        self.y.v_str = f'{self.u.name}'
+        self.y.v_str = f'{self.K.name} * {self.u.name}'
 
         self.x.e_str = f'({self.u.name} - {self.name}_x)'
         self.y.e_str = f'{self.K.name} * {self.T1.name} * ({self.u.name} - {self.name}_x) + ' \
